@@ -107,6 +107,10 @@ func (e *Exec) invoke(t *Thread, f *Frame, clo *Closure, args []Value, call *ssa
 		}
 		return finish(res)
 	}
+	if r := e.redirect(clo.Fn); r != nil {
+		e.Stats.Stubs[clo.Fn.String()+" -> "+r.Name()] = true
+		clo = &Closure{Fn: r}
+	}
 	if clo.Fn.String() == "(*sync.Once).Do" {
 		o := e.syncObj(args[0].(Ptr))
 		if !granted {
@@ -170,6 +174,23 @@ func (e *Exec) builtinOrStub(t *Thread, clo *Closure, args []Value, granted bool
 	}
 	s, _ := e.stubFor(clo.Fn)
 	return s(e, t, args, granted)
+}
+
+// redirects: library functions that open real sockets or parse OS addresses are replaced by
+// harness functions of the same package (environment model), when the harness defines them.
+var redirects = map[string]string{
+	"github.com/vapourismo/knx-go/knx/knxnet.DialTunnelUDP":           "verifDialTunnelUDP",
+	"github.com/vapourismo/knx-go/knx/knxnet.DialTunnelTCP":           "verifDialTunnelTCP",
+	"github.com/vapourismo/knx-go/knx/knxnet.ListenRouterOnInterface": "verifListenRouter",
+	"github.com/vapourismo/knx-go/knx/knxnet.HostInfoFromAddress":     "verifHostInfoFromAddress",
+}
+
+func (e *Exec) redirect(fn *ssa.Function) *ssa.Function {
+	to, ok := redirects[fn.String()]
+	if !ok || fn.Pkg == nil {
+		return nil
+	}
+	return fn.Pkg.Func(to)
 }
 
 // callInline runs a non-blocking builtin or stub immediately (used while unwinding).
